@@ -19,7 +19,8 @@ Proof. exact circ_ok_sound. Qed.
    true then (1) every child and port has exactly one instance/port symbol and there is no other, (2) no two of them
    share a cell or overlap, (3) for every wire all its nets form one figure connected to the driver pin which reaches
    and touches every reader pin, (4) every net end names only a pin of its own wire (and of no other wire), on the
-   symbol that stands for the pin's owner *)
+   symbol that stands for the pin's owner, (5) pins of different wires are never drawn at one point, every net is routed
+   and its polyline starts / ends exactly on the pins its ends name *)
 Theorem C18_check_sound : forall c l, schem_ok c l = true -> SchemOK c l.
 Proof. exact schem_ok_sound. Qed.
 
@@ -54,6 +55,16 @@ Proof. exact ex_add_dropped_rejected. Qed.
 Example C18_dropped_net_not_SchemOK : ~ SchemOK ex_add_c ex_add_dropped_l.
 Proof. exact ex_add_dropped_not_SchemOK. Qed.
 
+(* pin geometry: a block with an Add child that has a carry output is accepted as py4hw draws it; the same picture with the
+   carry pin drawn on the sum pin (pins of two wires at one point), or with one net ending one pixel off the pin it names,
+   is rejected and violates the declarative statement *)
+Example C18_addco_accepted : schem_ok ex_addco_c ex_addco_l = true.
+Proof. exact ex_addco_accepted. Qed.
+Example C18_coincident_pins_not_SchemOK : ~ SchemOK ex_addco_c ex_addco_clash_l.
+Proof. exact ex_addco_clash_not_SchemOK. Qed.
+Example C18_net_off_pin_not_SchemOK : ~ SchemOK ex_addco_c ex_addco_offpin_l.
+Proof. exact ex_addco_offpin_not_SchemOK. Qed.
+
 (* C18-F1 (repaired in /repo by ead5329, switched by fixes/C18_switch.py): the layout py4hw USED TO build for a block that contains
    Reg(d, q, enable=q)  lost the net q -> r.e; kept as a negative example: it is rejected and violates the declarative statement *)
 Example C18_selfloop_old_layout_rejected : schem_ok ex_selfloop_c ex_selfloop_l = false /\ ~ SchemOK ex_selfloop_c ex_selfloop_l.
@@ -62,6 +73,14 @@ Proof. exact (conj ex_selfloop_rejected ex_selfloop_not_SchemOK). Qed.
    the net fZ -> r.e present: accepted, hence SchemOK *)
 Example C18_selfloop_repaired_SchemOK : SchemOK ex_selfloop_c ex_selfloop_repaired_l.
 Proof. exact ex_selfloop_repaired_SchemOK. Qed.
+
+(* C18-F2 (repaired in /repo by c335649, switched by fixes/C18_switch.py): the layout py4hw USED TO build for a block that contains an Add
+   with carry input drew the adder's input pins b and ci at one point; kept as a negative example *)
+Example C18_addci_old_layout_rejected : schem_ok ex_addci_c ex_addci_l = false /\ ~ SchemOK ex_addci_c ex_addci_l.
+Proof. exact (conj ex_addci_rejected ex_addci_not_SchemOK). Qed.
+(* with fixes/C18-F2.diff applied the same block is accepted *)
+Example C18_addci_repaired_SchemOK : SchemOK ex_addci_c ex_addci_repaired_l.
+Proof. exact ex_addci_repaired_SchemOK. Qed.
 
 Print Assumptions C18_circ_check_sound.
 Print Assumptions C18_check_sound.
